@@ -580,8 +580,7 @@ func checkNormaliserModel(drv *hx.Driver, step int, q, opn string, doc, nd *ast.
 //            "printed": it returns "doc:" + the printed normalised document (model: printedKey; notes/fixes/D-06k.diff).
 //   keyShape "coded":   cache key = operationName + "\x00" + normKey, and "raw:" + hex FNV-1a-64 of the query for
 //                       requests normalisation does not apply to (model: keyShapeCoded);
-//            "repaired": cache key = Itoa(len(operationName)) + ":" + operationName + normKey, fallback "raw:" + query
-//                       (model: keyShapeRepaired).
+//            "repaired": the same join, fallback "raw:" + query (model: keyShapeRepaired).
 // Anything else the code may do is taken for fnv / coded and shows as a key divergence on the first steps.
 var keyMode, keyShape = "fnv", "coded"
 
@@ -595,7 +594,7 @@ func detectKeyModes() {
 	const q = `query A { tag } query B { tag }`
 	c := graphql.NewPlanCache(graphql.PlanCacheOptions{Normalize: true})
 	c.Get(s, q, "")
-	if ks := c.VerifKeys(); len(ks) == 1 && ks[0] == "0:raw:"+q {
+	if ks := c.VerifKeys(); len(ks) == 1 && ks[0] == "\x00raw:"+q {
 		keyShape = "repaired"
 	}
 }
